@@ -306,7 +306,25 @@ def seek_landing(F, R):
                 continue
             from ..paths import describe as _dd
             d = _dd(b, t['args'][1], depth=6, at=bb)
-            good = d == 'index' if fn == 'seek_to_index' else (d.startswith('Add(') and 'index' in d and '.slice' in d and d.count('Add(') == 1)
+            if fn == 'seek_to_index':
+                good = d == 'index'
+            else:
+                good = d.startswith('Add(') and 'index' in d and '.slice' in d and d.count('Add(') == 1
+                if not good and d.startswith('Add(') and d.count('Add(') == 1:
+                    # the start of the slice may come out of a helper / a destructured pair: judged on where the other
+                    # summand comes from
+                    from .c15 import sources
+                    from ..facts import op_local as _ol
+                    dd = b.single_def(_ol(t['args'][1])) if _ol(t['args'][1]) is not None else None
+                    for _ in range(3):
+                        if dd and dd[0] == 'stmt' and dd[3]['rv']['k'] == 'use' and _ol(dd[3]['rv']['op']) is not None:
+                            dd = b.single_def(_ol(dd[3]['rv']['op']))
+                    if dd and dd[0] == 'stmt' and dd[3]['rv']['k'] == 'bin' and dd[3]['rv']['op'].startswith('Add'):
+                        ops = [dd[3]['rv']['a'], dd[3]['rv']['b']]
+                        descs = [_dd(b, o, depth=3, at=dd[1]) for o in ops]
+                        if 'index' in descs:
+                            other = ops[1 - descs.index('index')]
+                            good = any(x.endswith('.slice') or '.slice' in x for x in sources(b, other))
             R.check(good, 'B.C18.seek', 'target:' + fn, 'DecodeScheduler::%s sends the decoder to %s' % (fn, d[:100]), detail={'target': d[:120]}, where=b.where(bb), nontrivial=False)
     # 'after any sequence of seeks': a seek request is carried out - seek_to_index has no success path that leaves the decoder
     # where it was (a "same target as last time" shortcut drops the second of two seeks to one position)
